@@ -7,7 +7,7 @@
   (5) binding self-test: a recorded trace is corrupted and must be rejected
 """
 import json, os, random, shutil, time, copy
-import vbuild, vtlc, engine, gen_core, checklib
+import vbuild, vtlc, engine, gen_core, gen_conc, checklib
 from vbuild import VERIF, InfraError
 
 PROPS = ["C01", "C02", "C03", "C04", "C05", "C06", "C17"]
@@ -202,6 +202,17 @@ def run(prop, tier, seed):
                 # the real code crashed / the harness died: not a verdict for this property by itself
                 raise InfraError(f"engine S died on {fin}:\n" + (p.stdout or "")[-3000:] + (p.stderr or "")[-2000:])
             traces.append(fout)
+        # (3b) engine C: gated concurrent schedules (client requests racing each other and the sweepers)
+        nc = 200 if quick else 4000
+        conc = [gen_conc.gen_conc(seed, i) for i in range(nc)]
+        with open(os.path.join(VERIF, "scenarios", "conc_directed.json")) as fh:
+            conc += json.load(fh)
+        resc = engine.run_harness(binp, "TestVerifC", conc, os.path.join(wd, "runc"), tag="c")
+        for fin, fout, p in resc:
+            if p is not None:
+                raise InfraError(f"engine C died on {fin}:\n" + (p.stdout or "")[-3000:] + (p.stderr or "")[-2000:])
+            traces.append(fout)
+        scs = scs + conc
         # (4) monitors
         viols, mst = engine.monitor_traces("MonLock", traces, [prop], os.path.join(wd, "mon"))
         byname = {sc["name"]: sc for sc in scs}
@@ -222,14 +233,15 @@ def run(prop, tier, seed):
                       "invariants": ["HoldersWellFormed", "OneTerminalReply", "QueuedMeansLive", "NoLostWakeup", "WaitedFlagInv", "QueueOrderInv", "GrantOK", "RefusedUnlockChangesNothing", "NoEarlyTimeout"],
                       "wall_s": round(mc_wall, 1)},
             "tlc_behaviours_replayed": len(beh), "tlc_behaviour_prefixes_printed": nprinted,
-            "random_histories": len(rnd), "big_histories": len(big), "directed_histories": len(direct),
+            "gated_concurrent_histories": len(conc), "random_histories": len(rnd), "big_histories": len(big), "directed_histories": len(direct),
             "monitor": {"module": "spec/mon/MonLock.tla", "events": mst["events"], "monitor_states": mst["monitor_states"], "clauses_of": prop},
             "selftest": stest,
             "evaluations": len(scs), "distinct_nontrivial": len({json.dumps(s["steps"], sort_keys=True) for s in scs}),
             "rule": "one evaluation = one history replayed on the real code and validated by the TLA+ monitor; distinct = distinct step sequences",
         }
         out.assumptions = [
-            "engine S is sequential: one goroutine, virtual clock, sweeps run by the driver (hook H1); concurrency is covered by the gated engine where registered",
+            "engine S is sequential: one goroutine, virtual clock, sweeps run by the driver (hook H1)",
+            "engine C runs requests and sweepers as goroutines gated at the reply callback and the verifPoint hooks; schedules are seeded random (not enumerated); exact-count clauses of C17 are judged on sequential histories only",
             "requests with a LockId that already has a live queued request on the same key are skipped by the driver (finding A12 is explored by a directed history only)",
             "millisecond timers are not driven by the virtual clock and are excluded here",
         ]
